@@ -1,6 +1,6 @@
 #!/bin/bash
 # run every check's quick tier on the current tree and print one summary line each (used before committing engine changes)
-cd /verif
+cd "$(dirname "$(readlink -f "$0")")"
 for id in $(python3 -c "import verifspec; print(' '.join(sorted(verifspec.SPECS)))"); do
   out=$(./check $id ${1:+--tier $1} 2>&1); rc=$?
   echo "$id rc=$rc $(echo "$out" | grep -E "^$id (quick|thorough)" | tail -1 | cut -c1-160)"
